@@ -1,4 +1,5 @@
 import sys
+# unmarshalInt: null keeps the previous int
 p=sys.argv[1]+'/marshal.go'; s=open(p).read()
 old="""func unmarshalInt(info TypeInfo, data []byte, value interface{}) error {
 """
